@@ -254,14 +254,8 @@ def run(ctx):
 
 
 def _loopenv(lp) -> dict:
-    if lp is None:
-        return {}
-    cnt, env = {}, {}
-    for n in ast.walk(lp):
-        if isinstance(n, ast.Assign) and len(n.targets) == 1 and isinstance(n.targets[0], ast.Name):
-            cnt[n.targets[0].id] = cnt.get(n.targets[0].id, 0) + 1
-            env[n.targets[0].id] = n.value
-    return {k: v for k, v in env.items() if cnt[k] == 1}
+    from ..util import loop_env
+    return loop_env(lp)
 
 
 def _snapshot_feeds(f, sub: ast.Subscript, pv: str, key: str, s_p: str) -> bool:
